@@ -59,6 +59,10 @@ class C15(Check):
                     files.append({"path": f"pkg/{origin}_{len(files)}.py", "snippets": [r["idx"]], "layout": {}})
             exps.append(dict(base, kind="corner:sast-registry-walk", include=cids, world_spec={"files": files}))
         exps += [
+            # a transformer that alters code without registering a change of its own (order-imports dropping a repeated from-import)
+            dict(base, kind="corner:silent-rewrite", include=["pixee:python/order-imports"],
+                 world_spec={"files": [{"path": "pkg/redundant.py", "raw": {"t": "from os import path, sep\nfrom os import path\n\nprint(path, sep)\n"}},
+                                       {"path": "pkg/unordered.py", "raw": {"t": "import sys\nimport os\n\nprint(os, sys)\n"}}]}),
             # overlapping selections: a codemod matched by two patterns is one executed codemod
             dict(base, kind="corner:overlapping-patterns", include=["pixee:python/fix-*", "pixee:python/fix-mutable-params"], world_spec={"files": [f1, f2]}),
             dict(base, kind="corner:overlapping-patterns", include=["pixee:python/remove-unnecessary-f-str", "pixee:python/remove-*"], world_spec={"files": [f1, f2]}),
